@@ -244,6 +244,26 @@ func runC03(c *Ctx) {
 					r.Discharge("R03.3", name, construct, p.Pos(ci.pos), "IsMember and a non-nil Err are stored into the same variable, but on no path together (decision table of the function)")
 					continue
 				}
+				// a Result -> Result helper of a combinator: the abstract execution of every caller
+				// runs it with the caller's values, so the callers' decision tables cover it
+				if fn.Parent() == nil && fn.Signature.Results().Len() == 1 && ri.IsResult(fn.Signature.Results().At(0).Type()) {
+					kg := p.KG()
+					live, _ := kg.Live()
+					nIn, allClean := 0, true
+					for _, e := range kg.In[fn] {
+						if !live[e.Caller] {
+							continue
+						}
+						nIn++
+						if e.Kind != "static" || !cleanTable[e.Caller] {
+							allClean = false
+						}
+					}
+					if nIn > 0 && allClean {
+						r.Discharge("R03.3", name, construct, p.Pos(ci.pos), "a helper executed within the decision tables of its callers, all of which are clean")
+						continue
+					}
+				}
 				if len(ri.Receives(fn)) == 0 && len(fn.Blocks) > 0 {
 					oc, unk := ri.Run(core.Receive{Fn: fn, Start: fn.Blocks[0]}, core.AbsRes{})
 					both := false
